@@ -984,6 +984,24 @@ def run_family(ctx, fam, n_hist, model_ok, shrunk, hist_len=(1, 22), weights=Non
     return dis, histories, all_recs
 
 
+def small_scope(n_nodes, max_edges):
+    """every hypergraph over n_nodes labelled nodes (inserted in decreasing order, so view order differs from sorted
+    order) with <= max_edges distinct edges among all subsets INCLUDING the empty edge, each also with its first edge
+    repeated (a multi-edge); as histories `add_nodes_from` + one `add_edge` per edge, so the objects are held across
+    the construction"""
+    import itertools
+    nodes = list(range(n_nodes))[::-1]
+    subsets = [list(c) for r in range(0, n_nodes + 1) for c in itertools.combinations(nodes, r)]
+    P = {"k": 1, "w": "w", "d": 2, "attr": "color", "missing": None}
+    for k in range(max_edges + 1):
+        for combo in itertools.combinations(subsets, k):
+            for dup in ((False, True) if combo else (False,)):
+                es = list(combo) + ([combo[0]] if dup else [])
+                ops = [{"op": "add_nodes_from", "items": [{"n": n} for n in nodes], "attr": []}]
+                ops += [{"op": "add_edge", "members_raw": list(ms), "idx": i, "attr": [["w", i]] if i % 2 else []} for i, ms in enumerate(es)]
+                yield {"class": "Hypergraph", "ops": ops, "params": P}
+
+
 def corpus_cases():
     out = []
     import glob
@@ -1012,11 +1030,20 @@ def run(ctx):
     shrunk = set()
     extra = corpus_cases()
     ctx.stats["corpus_histories"] = len(extra)
-    plan = [("Hypergraph", ctx.n(90, 2500)), ("SimplicialComplex", ctx.n(30, 700)), ("DiHypergraph", ctx.n(45, 1200))]
+    plan = [("Hypergraph", ctx.n(85, 1400)), ("SimplicialComplex", ctx.n(28, 180)), ("DiHypergraph", ctx.n(42, 650))]
     results = {}
     for name, n in plan:
         fam = FAMILIES[name]
         results[name] = run_family(ctx, fam, n, ok and model_available(fam), shrunk, extra=extra)
+    # exhaustive small scope of the correspondence (validation of the model, not the proof)
+    nn, me = ctx.n(3, 4), ctx.n(2, 3)
+    small = list(small_scope(nn, me))
+    results["small-scope"] = run_family(ctx, FAMILIES["Hypergraph"], 0, ok, shrunk, extra=small)
+    ctx.stats["small_scope_hypergraphs"] = len(small)
+    ctx.exhaustive = True
+    ctx.extra["exhaustive"] = (f"correspondence + predicate on every hypergraph with {nn} labelled nodes and <= {me} distinct edges "
+                               f"among all {2 ** nn} subsets (empty edge included), each also with its first edge doubled: {len(small)} "
+                               "hypergraphs, observed after every construction step with objects held from the empty network on")
     unexplained = any(r[0] for r in results.values())
     if (unexplained or not ok) and not any(v["kind"] == "concrete" for v in ctx.violations):
         # look harder on the implementation alone, biased to the op kinds of the disagreeing histories
